@@ -98,6 +98,7 @@ Lemma ip_inv_step : forall s e, ip_inv s -> ip_inv (ip_step s e).
 Proof.
   intros s e H. destruct e; cbn [ip_step]; try exact H; try (apply ip_inv_deliver_at; exact H).
   - destruct (i_closed s); (eapply ip_inv_send; [..|exact H]; reflexivity).
+  - destruct (i_closed s); (eapply ip_inv_send; [..|exact H]; reflexivity).
   - destruct (i_ep s) eqn:E; [exact H|]. apply ip_inv_deliver. exact H.
   - apply ip_inv_deliver. revert H. apply ip_inv_same; reflexivity.
   - destruct (i_pend s); [exact H|]. revert H. apply ip_inv_same; reflexivity.
@@ -177,6 +178,12 @@ Proof.
     apply (ip_dead_deliver (ip_setsrv s (Nat.max (i_srv s) (S i))) (Genuine ((i_ep s, A2C), i)) e). exact D. }
   destruct ev; cbn [ip_step]; try (split; [exact D|apply ip_frozen_refl]); try apply DA.
   - (* Send *)
+    destruct (i_closed s) eqn:C.
+    + split; [destruct D as [D|[D1 D2]]; [left; exact D|right; split; [exact D1|reflexivity]]|].
+      repeat split.
+    + destruct D as [D|[D1 D2]]; [|congruence]. split; [left; exact D|].
+      unfold ip_frozen; cbn -[under_ep under_ep_o nids chunks]. rewrite under_ep_nids_other by lia. repeat split.
+  - (* SendX *)
     destruct (i_closed s) eqn:C.
     + split; [destruct D as [D|[D1 D2]]; [left; exact D|right; split; [exact D1|reflexivity]]|].
       repeat split.
@@ -286,6 +293,15 @@ Proof.
       * left. rewrite failed_in_seal in H. exact H.
       * right. split; [symmetry; exact E1|reflexivity].
     + left. rewrite failed_in_wire, failed_in_seal in H. exact H.
+  - (* SendX *)
+    destruct (i_closed s) eqn:C; revert F; apply ip_finv_keep; try reflexivity; try (cbn; congruence);
+      intros e H; cbn -[nids chunks] in H.
+    + apply failed_in_out in H. destruct H as [H|(o & [<-|[]] & E1 & _)].
+      * left. rewrite failed_in_seal in H. exact H.
+      * right. split; [symmetry; exact E1|reflexivity].
+    + apply failed_in_out in H. destruct H as [H|(o & I & E1 & _)].
+      * left. rewrite failed_in_wire, failed_in_seal in H. exact H.
+      * right. split; [|reflexivity]. destruct I as [<-|I]; [symmetry; exact E1|]. apply in_outs_ep in I. congruence.
   - (* ReplayOld *)
     destruct (i_ep s) eqn:E; [exact F|]. apply ip_finv_deliver. exact F.
   - (* Corrupt *)
